@@ -48,6 +48,12 @@ def opsUri (op : String) (args : List String) : Option String :=
       | .error (.escape "model:needs-oracle") => "skip"
       | .error e => "err " ++ e.render
       | .ok b => hexOrDash b ++ " " ++ renderRSkip renderUri (parse env none b))
+  | "uri.assign", some kvs =>
+    -- u = URI(); u.<name> = value for each pair, in order; u.normalize(); the record, then the `port` property
+    (pairUp kvs).map fun ps =>
+      let u := normalize env (ps.foldl (fun u kv => assign env.schemes u kv.1 kv.2) {})
+      let eff := match u.portProp with | some p => toString p | none => "None"
+      "ok " ++ renderUri u ++ " eff=" ++ eff
   | "uri.eq", some [a, b] => some (renderRSkip toString (do
       let au ← parse env none a
       eqText env au b))
